@@ -33,7 +33,28 @@ def _configs(m):
         ("html-default|parse", m.create_markdown()),
         ("html-default|read", m.create_markdown()),
         ("ast-plugins|parse", m.create_markdown(renderer=None, plugins=["table", "footnotes", "def_list", "task_lists"])),
+        ("rst|read", m.create_markdown(renderer=RSTRenderer())),
+        # the module-level shortcut with its cache of converters
+        ("markdown()-html", _Shortcut(m, {})),
+        ("markdown()-noescape-plugins", _Shortcut(m, {"escape": False, "plugins": ["table", "footnotes"]})),
+        ("markdown()-ast", _Shortcut(m, {"renderer": "ast"})),
+        ("markdown()-rst", _Shortcut(m, {"renderer": RSTRenderer()})),
+        ("markdown()-markdown", _Shortcut(m, {"renderer": MarkdownRenderer()})),
     ]
+
+
+class _Shortcut:
+    """mistune.markdown(text, **kw) as a converter object"""
+
+    def __init__(self, m, kw):
+        self.m, self.kw = m, kw
+
+    def __call__(self, t):
+        return self.m.markdown(t, **self.kw)
+
+
+# documents that are empty or white space only (of the narrow and of the wide kind): the final-newline clause on them
+BLANK_DOCS = ["", " ", "\t", "  \n \n", "\n\n", "\u00a0", "\u3000\n\u3000", "\x0c", "\u2028", "\x0b\n", " \u2003 ", "\x1c", "\ufeff", "\u200b"]
 
 
 def _endings_stream(r, n):
@@ -171,7 +192,9 @@ def oracle(ctx, extra):
     fails = []
     docs = [e for e in extra if isinstance(e, str)]
     docs += [d.replace("\r\n", "\n").replace("\r", "\n") for d in docs]
+    docs += BLANK_DOCS
     docs += list(gen_docs.mixed_stream(r, n, plugins=gen_docs.ALL_PLUGINS))
+    docs += [gen_docs.edge_doc(r) for _ in range(n // 10)]
     docs += [d.rstrip("\n") for d in docs[: n // 3]]
     docs = [d for d in dict.fromkeys(docs) if "\r" not in d]
     nontriv = 0
@@ -196,7 +219,7 @@ def oracle(ctx, extra):
             fails.append({"input": None, "config": name, "expected": b, "got": a, "how": "none"})
     return {"evaluations": ev * 4, "distinct_nontrivial": nontriv, "failures": fails,
             "rule": "LF documents (70% structured markdown incl. all plugins, 15% mutated, 15% noise; a third without final "
-                    "newline) x {CRLF, CR, unambiguous mixed, +final newline} x 6 configurations (+ the parse() and read() entry points); non-trivial = has a line "
+                    "newline; 14 empty or white-space-only documents; 10% documents with wide white space at the borders of block text) x {CRLF, CR, unambiguous mixed, +final newline} x 6 converters (+ the parse() and read() entry points, + the shortcut mistune.markdown() with the html, ast, rst and markdown renderers); non-trivial = has a line "
                     "ending to vary or lacks the final newline; distinct by text",
             "samples": [json.dumps(d) for d in docs[:4]]}
 
